@@ -162,6 +162,7 @@ structure Handle where
 
 inductive Kind
   | fixMessage | duplicateSeqNo | assertion | overflow | integrity | stopIteration | internal
+  | operational | data        -- sqlite3.OperationalError / sqlite3.DataError (injected collaborator faults)
   deriving DecidableEq, Repr
 
 /-- result of a public method -/
